@@ -5,12 +5,16 @@ sys.path.insert(0, os.path.dirname(os.path.dirname(os.path.abspath(__file__))))
 from vlib import *
 
 LONG = "a" * 300
+L255 = "b" * 255          # NAME_MAX: the longest file name that can exist
 # the property's segment alphabet (14) ...
 SEGS = ["", ".", "..", "...", "a", ".a", "a.", "a..b", "a\\b", "..\\a", "\0", "%2e%2e", "‥", LONG]
 # ... plus, for the end-to-end part, names that exist in the scratch tree
 SEGS_E2E = SEGS[:-1] + ["．．", "dir", "sub", "canary", LONG]
 BASES = ["/srv/t", "/srv/t/", "t", "", "/", "./t", "/srv/../t", "t//", "/srv/t/.", "a\\b"]
 NOISE = ["/", "/", ".", ".", "\\", "a", "\0", "%", "2", "e", " ", "‥", "．", "\x7f", "\x80", "\xe9", "\U0010ffff", "\n", "∕", "⁄"]
+TRICKY = [L255, L255 + "b", "dir/" + L255, "../" + L255, "dir/../" + L255, "./" + L255, ("c" * 250 + "/") * 20 + "a", ("dir/" * 1100) + "a", "///", "/", "a/", "dir/", "dir/a/",
+          "a/.", "a /", "a ", " a", " a/", "dir//a", "/dir/a", "//dir///a", "dir/a\0", "a\0/../canary", "\0", "dir/\0/a", "a\n", "base/a", "root/base/a", "../base/a",
+          "dir/sub/canary", "dir/sub/../sub/a", "dir/sub/a/", "dir/sub//a", "a/a", "a/../a", "canary/", "canary/.", "canary/..", "canary/../canary"]
 NPROC = 12
 
 
@@ -131,9 +135,13 @@ def make_tree():
     root = os.path.join(top, "root")
     base = os.path.join(root, "base")
     inside = ["a", "a.", "a..b", "dir/a", "dir/a.", "dir/sub/a", "dir/dir/a", "sub/a", ".a", ".../a", "%2e%2e/a", "a\\b", "..\\a",
-              "‥/a", "．．", "canary", "dir/canary", "sub/dir/a"]
+              "‥/a", "．．", "canary", "dir/canary", "sub/dir/a",
+              # names that exist both inside and outside, the longest legal file name, blanks
+              L255, "dir/" + L255, "a ", " a", "dir/sub/canary", "base/a", "root/base/a"]
     outside = [os.path.join(root, "a"), os.path.join(root, "canary"), os.path.join(root, "dir", "a"), os.path.join(root, "sub", "a"),
-               os.path.join(top, "a"), os.path.join(top, "canary"), os.path.join(root, "base2", "a"), os.path.join(root, "basea")]
+               os.path.join(top, "a"), os.path.join(top, "canary"), os.path.join(root, "base2", "a"), os.path.join(root, "basea"),
+               os.path.join(root, L255), os.path.join(root, "dir", L255), os.path.join(root, "dir", "sub", "a"), os.path.join(root, "dir", "sub", "canary"),
+               os.path.join(top, "dir", "a"), os.path.join(root, "a "), os.path.join(root, " a"), os.path.join(top, "root", "a"), os.path.join(top, L255)]
     absdir = "/tmp/c17abs%d" % os.getpid()
     outside.append(os.path.join(absdir, "a"))
     tags = {}
@@ -155,7 +163,7 @@ def gen_e2e(chk, base, absdir, outside):
                 "%2e%2e/a", "..%2fa", "..\\..\\a", "..\\a", "‥/a", "．．/a", "․․/a", "..\0/a", "\0../a", "../base2/a", "../basea",
                 absdir + "/a", "/" + absdir + "/a", "//" + absdir.lstrip("/") + "/a", "dir/" + absdir + "/a"] + outside + \
                [os.path.relpath(o, base) for o in outside] + ["dir/" + os.path.relpath(o, os.path.join(base, "dir")) for o in outside] + \
-               ["a/" + "../" * k + "canary" for k in range(1, 6)] + ["dir/sub/" + "../" * k + "a" for k in range(1, 7)]
+               ["a/" + "../" * k + "canary" for k in range(1, 6)] + ["dir/sub/" + "../" * k + "a" for k in range(1, 7)] + TRICKY
     names = targeted + names
     if chk.thorough:
         level = [[s] for s in SEGS_E2E]
@@ -171,6 +179,58 @@ def gen_e2e(chk, base, absdir, outside):
         else:
             cases.append([1, rng.below(7)] + enc(n))
     return cases
+
+
+def cb_apply(cb, name, parent):
+    if cb == 1:
+        rv = parent.split("/")
+        rv.pop()
+        for seg in name.split("/"):
+            if seg == ".":
+                pass
+            elif seg == "..":
+                if rv:
+                    rv.pop()
+            else:
+                rv.append(seg)
+        return "/".join(rv)
+    if cb == 2:
+        return "../" + name
+    if cb == 3:
+        return parent + "/../" + name
+    return name
+
+
+def gen_names2(chk, outside, base):
+    names = ["a", "dir/a", "sub/a", "canary", "../a", "../canary", "./a", "./../a", "../../a", "../../canary", "../dir/a", "dir/../a", "dir/../../a", "..", ".", "",
+             "/a", "a/", "..\\a", "a\\b", ".a", "%2e%2e/a", "‥/a", "\0", "a\0", L255, "../" + L255, "sub/../../a", "../sub/a", "../base2/a", "../../base2/a",
+             "../basea", "x/../../../canary", "../../../../../../../../tmp/c17abs%d/a" % os.getpid()] + \
+            [os.path.relpath(o, base) for o in outside] + [os.path.relpath(o, os.path.join(base, "dir")) for o in outside] + names_upto(SEGS_E2E[:-1], 2)
+    parents = ["main.html", "dir/main.html", "dir/sub/main.html", "../main.html", "/main.html", "x/y/z/main.html"]
+    cases = []
+    for j, n in enumerate(names):
+        for cb in (0, 1, 2, 3):
+            for how in (1, 2, 3, 4, 5):
+                if j >= 80 and not chk.thorough and (j + cb + how) % 3:
+                    continue
+                par = parents[(j + cb + how) % len(parents)] if cb else parents[(j + how) % 2]
+                cases.append((cb, how, par, n))
+    return cases
+
+
+def fs_status(path):
+    """('found', tag) | ('missing',) | ('unreadable',) for the model's path (None = refused by safe_join)"""
+    if path is None:
+        return ("missing",)
+    try:
+        with open(path, "r", encoding="utf8") as f:
+            content = f.read()
+    except FileNotFoundError:
+        return ("missing",)
+    except (OSError, ValueError):
+        return ("unreadable",)
+    m = re.search(r'"([A-Z]+\d+)"', content)
+    return ("found", m.group(1) if m else content)
 
 
 def expected_e2e(how, path):
@@ -200,9 +260,9 @@ def expected_e2e(how, path):
 
 def main():
     chk = Check("C17", "proof")
-    chk.cov["trusted_base"] = TRUSTED_COMMON + ["Print Assumptions: all five theorems closed under the global context (no axioms)",
+    chk.cov["trusted_base"] = TRUSTED_COMMON + ["Print Assumptions: all ten theorems closed under the global context (no axioms)",
                                                "path resolution by the operating system is the specification function Spec.resolve (POSIX, symbolic links aside); std::path::PathBuf::push (Unix) is modelled by Model.push",
-                                               "that include/extends/import hand computed names to the loader unchanged (no join callback) is established by the end-to-end run, not by proof"]
+                                               "the model of State::get_template / join_template_path / LoaderStore::get / perform_include / load_blocks (names_from_templates_* theorems) is tied to the engine by the names part: a recording loader reports the names it is asked for, with no callback and with three callbacks"]
     chk.assumptions = ["Unix path semantics (Windows drive/UNC prefixes are outside the model)", "no symbolic links inside the base (excluded by the property)",
                        "template names are Rust strings (valid UTF-8); modelled as lists of code points",
                        "modelled: loader.rs::safe_join, path_loader (NotFound -> missing, other I/O errors -> InvalidOperation)"]
@@ -313,8 +373,68 @@ def run_all(chk, mj, hooks, proofs_ok, top, base, absdir, tags, outside):
                     hist["e2e:" + ("content" if got[0] == "out" and got[1] else "missing/unreadable")] += 1
                     if (got[0] == "out" and got[1]) or (name.count("/") >= 1 and ".." in name):
                         nontriv.add(("e", how, name))
+    # ---------------- names computed inside templates, with and without a join callback ----------------
+    n2_bad, n2_mism, n2_cases = [], [], 0
+    if not replay or replay.get("part") == "names":
+        quad = [tuple(replay["quad"])] if replay else gen_names2(chk, outside, base)
+        quad = [q for q in quad if cb_apply(q[0], q[3], q[2]) != q[2] and cb_apply(q[0], "a", q[2]) != q[2]]
+        firsts = [cb_apply(cb, n, par) for cb, how, par, n in quad]
+        seconds = [cb_apply(cb, "a", par) for cb, how, par, n in quad]
+        uniq = sorted(set(firsts) | set(seconds))
+        mp = prun([mj, "c17"], [[0] + enc(base) + enc(u) for u in uniq])
+        path_of = {u: (dec(o, 1)[0] if o[0] == 1 else None) for u, o in zip(uniq, mp)}
+        st1 = [fs_status(path_of[f]) for f in firsts]
+        cases2 = [[2, cb, how] + enc(par) + enc(n) for cb, how, par, n in quad]
+        masked = prun([mj, "c17-names"], [c + [{"found": 1, "unreadable": 2}.get(st[0], 0)] for c, st in zip(cases2, st1)])
+        env = dict(ENV, C17_BASE=base)
+        n2_cases = len(cases2)
+        for rel in (False, True):
+            outs = prun([bin_path("c17", rel)], cases2, env=env)
+            for i, (cb, how, par, n) in enumerate(quad):
+                o = outs[i]
+                if not o or o[0] not in (0, 1) or -5 not in o:
+                    n2_bad.append((i, rel, o, "crash")); continue
+                k = len(o) - 1 - o[::-1].index(-5)
+                res, tail = o[:k], o[k + 1:]
+                asked, j = [], 1
+                for _ in range(tail[0]):
+                    a, j = dec(tail, j)
+                    asked.append(a)
+                text = dec(res, 1)[0] if res[0] == 1 else None
+                if text is not None and "CANARY" in text:
+                    n2_bad.append((i, rel, o, "canary")); continue
+                # expectation from the model (names) and model path + file system (result)
+                exp_asked = [firsts[i]]
+                st = st1[i]
+                if how == 5 and st[0] == "missing":
+                    exp_asked.append(seconds[i])
+                    st = fs_status(path_of[seconds[i]])
+                exp = ("out", st[1]) if st[0] == "found" else ("err", 5) if st[0] == "missing" else ("err", 3)
+                got = ("out", text) if text is not None else ("err", res[1])
+                m = masked[i]
+                m_asked, j = [], 1
+                for _ in range(m[0]):
+                    a, j = dec(m, j)
+                    m_asked.append(a)
+                if asked != exp_asked or m_asked != exp_asked or got != exp:
+                    n2_mism.append((i, rel, {"asked": asked, "model_asked": m_asked, "expected_asked": exp_asked, "got": got, "expected": exp}))
+                if rel is False:
+                    hist["names:cb=%d" % cb] += 1
+                    hist["names:" + ("content" if got[0] == "out" else "missing/unreadable")] += 1
+                    if cb and firsts[i] != n:
+                        nontriv.add(("n", cb, how, par, n))
+        chk.cov["names_cases"] = n2_cases
+        for i, rel, o, why in n2_bad[:3]:
+            cb, how, par, n = quad[i]
+            chk.violation("a template name computed inside a template made the path loader return the content of a file outside its base directory (or crash)",
+                          {"part": "names", "quad": list(quad[i]), "callback": ["none", "documented relative join", "'../' + name", "parent + '/../' + name"][cb],
+                           "how": how, "parent": par, "name": n, "profile": "release" if rel else "debug", "implementation": o[:40], "how_to": "./check C17 --replay <this file>"})
+        if not n2_bad and n2_mism and not replay:
+            i, rel, d = n2_mism[0]
+            chk.violation("the name handed to the loader (or the result) differs from the model of State::get_template / join_template_path",
+                          dict(d, theorem_or_correspondence="correspondence C17.Runner.run_names vs harness c17 (mode 2)", quad=list(quad[i]), profile="release" if rel else "debug"), True)
     # ---------------- evidence ----------------
-    chk.cov["evaluations"] = len(pure) * (3 if hooks else 1) + len(e2e) * 2
+    chk.cov["evaluations"] = len(pure) * (3 if hooks else 1) + len(e2e) * 2 + n2_cases * 2
     chk.cov["distinct_nontrivial"] = len(nontriv)
     chk.cov["rule"] = ("pure part: safe_join (through hook H1) vs model on %d bases x all names of up to 3 segments over the property's 14-segment alphabet "
                        "('', '.', '..', '...', 'a', '.a', 'a.', 'a..b', 'a\\\\b', '..\\\\a', NUL, '%%2e%%2e', U+2025, 300 x 'a')%s plus seeded code-point noise; the "
@@ -322,7 +442,9 @@ def run_all(chk, mj, hooks, proofs_ok, top, base, absdir, tags, outside):
                        "End-to-end part: path_loader over a scratch tree with %d canary files outside the base (parent, grand-parent, sibling directories with a common "
                        "prefix, an absolute path under /tmp); every name of up to 3 segments over the alphabet + tree names, plus targeted traversal spellings and the "
                        "canaries' absolute and relative paths, each through get_template, include, extends, import, from-import, include-ignore-missing and the bare "
-                       "loader closure, debug and release.  non-trivial = distinct case with >= 2 segments that is accepted or rejected because of a later segment (pure) "
+                       "loader closure, debug and release.  Names part: include / extends / import / from-import / include-with-two-choices from a registered template, without and with "
+                       "three path-join callbacks (documented relative join, '../'+name, parent+'/../'+name), fresh environment and recording loader per case: the names the loader is asked for "
+                       "and the result are compared with the model and model path + file system.  non-trivial = distinct case with >= 2 segments that is accepted or rejected because of a later segment (pure) "
                        "/ that returns content or contains '..' below the first segment (e2e)") % (len(BASES), " and all names of 4 and 5 segments" if chk.thorough else "", len(outside))
     chk.cov["exhaustive"] = False
     chk.cov["exhaustive_subbox_cases"] = exn
@@ -341,7 +463,7 @@ def run_all(chk, mj, hooks, proofs_ok, top, base, absdir, tags, outside):
     samples = [show(pure[i]) for i in (0, len(pure) // 3, len(pure) - 1)] if pure else []
     samples += [show(e2e[i]) for i in (0, len(e2e) // 2, len(e2e) - 1)] if e2e else []
     chk.cov["samples"] = samples
-    chk.cov["impl_vs_model_disagreements"] = len(pure_mism) + len(e2e_mism)
+    chk.cov["impl_vs_model_disagreements"] = len(pure_mism) + len(e2e_mism) + len(n2_mism)
     chk.cov["model_paths_not_beneath_base"] = len(model_not_beneath)
     chk.cov["kernel_crosscheck"] = {"cases": kernel_n, "agree": bool(kernel_ok)}
     # ---------------- verdicts ----------------
